@@ -19,6 +19,8 @@ pub mod c14;
 pub mod c15;
 pub mod c16;
 pub mod c17;
+pub mod c18;
+pub mod c19;
 pub mod lines;
 pub mod mixed;
 
@@ -45,6 +47,8 @@ pub fn run_property(id: &str, ctx: &Ctx) -> bool {
         "C15" => c15::run(ctx),
         "C16" => c16::run(ctx),
         "C17" => c17::run(ctx),
+        "C18" => c18::run(ctx),
+        "C19" => c19::run(ctx),
         _ => return false,
     }
     true
@@ -69,6 +73,8 @@ pub fn replay_property(id: &str, w: &mut Worker, sub: &str, case: &serde_json::V
         "C15" => c15::replay(w, sub, case),
         "C16" => c16::replay(w, sub, case),
         "C17" => c17::replay(w, sub, case),
+        "C18" => c18::replay(w, sub, case),
+        "C19" => c19::replay(w, sub, case),
         _ => None,
     }
 }
